@@ -62,7 +62,7 @@ var c10Insts = func() []*tn {
 	for _, e := range registry {
 		typeOnly := false
 		e.n.walk(func(n *tn, d int) {
-			if fxStd[n.Pkg] {
+			if fxStd[n.Pkg] || n.Pkg == "kit1" || n.Pkg == "kit2" {
 				typeOnly = true // used in type expressions only (C11)
 			}
 		}, 0)
